@@ -486,7 +486,7 @@ int HSolver::AnalyzeProblem(CBigLinProb &L)
 
 	// scan through the problem to see if there are any elements
 	// with a nonlinear conductivity
-	for(i=0;i<NumNodes;i++)
+	for(i=0;i<NumEls;i++)
 	{
 		if (blockproplist[meshele[i].blk].npts>0){
             IsNonlinear=true;
